@@ -7733,8 +7733,9 @@ class Parser:
         if self._match_text_seq("FOR", "REPLICATION"):
             return self.expression(exp.NotForReplicationColumnConstraint())
 
-        # Unconsume the `NOT` token
-        self._retreat(self._index - 1)
+        # The callers (_parse_column_constraint, _parse_unnamed_constraint) unconsume the `NOT`
+        # token when no constraint is returned; doing it here as well stepped back two tokens,
+        # which made _parse_column_def re-parse the previous constraint forever
         return None
 
     def _parse_column_constraint(self) -> exp.Expr | None:
